@@ -49,13 +49,17 @@ def run(tier):
         if big:
             p["ops"].insert(-1, {"op": "userdata", "meta": 9, "stype": 1, "data": ["rep", 1500000, i]})
             p["ops"].insert(-1, {"op": "anno", "sig": 0, "ts": 10 ** 6, "stype": 1, "data": ["rep", 1200000, i]})
+        if i % 37 == 9 or i == 3:
+            # payloads at the edge of the copy buffer's size (1 MiB, then its doublings)
+            for k_, sz in enumerate(rng.sample([(1 << 20) - 4, (1 << 20) - 3, (1 << 20) - 1, 1 << 20, (1 << 20) + 1, (1 << 21) - 2, 1 << 21], 4)):
+                p["ops"].insert(-1, {"op": "userdata", "meta": 20 + k_, "stype": 1, "data": ["rep", sz, i * 10 + k_]})
         rd = progs.reader_ops(rng, model, nreads=10, with_defs=True)
         # statistics on structured streams
         for g, s in model["sigs"].items():
             if s["defined"] and s.get("length", 0) > 400 and s["gen"][0] in ("ramp", "bit") and progs.WIDTH[s["dt"]] not in (24, 64):
                 L = s["length"]
                 for _ in range(3):
-                    incr = rng.choice([1, 7, s["norm"][1], s["norm"][1] * 3, L // 4])
+                    incr = max(1, min(L, rng.choice([1, 7, s["norm"][1], s["norm"][1] * 3, L // 4])))
                     cnt = max(1, min(rng.choice([1, 2, 5]), L // max(1, incr)))
                     st = rng.randint(0, L - incr * cnt)
                     rd.insert(-1, {"op": "stats", "sig": int(g), "start": st, "incr": incr, "cnt": cnt})
